@@ -890,3 +890,37 @@ fn dispatch_inner(hist: &History, obs: &Obs, scratch: &Scratch, budget: usize) -
 fn unused(_: Node) {
     let _ = pick(0, 1);
 }
+
+impl<'a, H: HK> Runner<'a, H> {
+    /// Resume on an existing store directory with a given model state (used by the fault engines).
+    pub fn resume(
+        hist: &'a History,
+        obs: &'a Obs,
+        dir: PathBuf,
+        cfg: Cfg,
+        model: Model,
+        ver: u32,
+        budget: usize,
+    ) -> Result<Self, Violation> {
+        let db = Db::<H>::open(&dir, &cfg).map_err(|f| viol(0, f.sig()))?;
+        Ok(Runner {
+            hist,
+            obs,
+            dir,
+            db: Some(db),
+            model,
+            cfg,
+            info: CaseInfo::default(),
+            budget: Budget { left: budget },
+            ver,
+            commits: 0,
+            clamp_rollback: false,
+        })
+    }
+    /// Give up the database handle and keep the directory.
+    pub fn detach(mut self) -> Option<Db<H>> {
+        let db = self.db.take();
+        self.dir = PathBuf::from("/nonexistent-nomt-verif");
+        db
+    }
+}
